@@ -181,6 +181,7 @@ impl Supervisor {
             cmd = Command::new(&self.exe);
             cmd.args(&self.args);
         }
+        cmd.env("RUST_BACKTRACE", "0");
         let mut ch = cmd
             .stdin(Stdio::piped())
             .stdout(Stdio::piped())
@@ -317,7 +318,7 @@ pub fn classify_death(signal: i32, code: i32, stderr: &str) -> &'static str {
 /// Returns (kind, exit code or signal, stderr tail): kind in "exit" | "signal" | "timeout".
 pub fn run_cli(exe: &str, args: &[String], stdin_bytes: &[u8], timeout: Duration) -> (String, i32, String, usize) {
     use std::os::unix::process::ExitStatusExt;
-    let mut ch = match Command::new(exe).args(args).stdin(Stdio::piped()).stdout(Stdio::piped()).stderr(Stdio::piped()).spawn() {
+    let mut ch = match Command::new(exe).args(args).env("RUST_BACKTRACE", "0").stdin(Stdio::piped()).stdout(Stdio::piped()).stderr(Stdio::piped()).spawn() {
         Ok(c) => c,
         Err(e) => verif_harness::die(&format!("cannot run {exe}: {e}")),
     };
@@ -344,7 +345,12 @@ pub fn run_cli(exe: &str, args: &[String], stdin_bytes: &[u8], timeout: Duration
         Ok((o, e)) => {
             let _ = w.join();
             let st = ch.wait().ok();
-            let tail = String::from_utf8_lossy(&e[e.len().saturating_sub(600)..]).to_string();
+            // head (the "panicked at file:line" line comes first) + tail
+            let tail = if e.len() > 1600 {
+                format!("{}\n...\n{}", String::from_utf8_lossy(&e[..1000]), String::from_utf8_lossy(&e[e.len() - 500..]))
+            } else {
+                String::from_utf8_lossy(&e).to_string()
+            };
             match st {
                 Some(s) => {
                     if let Some(sig) = s.signal() {
